@@ -19,6 +19,10 @@ type C09Call struct {
 	Kind   int  `json:"kind"`
 	Bodies int  `json:"bodies"` // stream: number of response bodies the server will send
 	Header bool `json:"header"` // stream: server sends a separate header envelope first; caller calls Header()
+	// Lazy: the caller of this stream does not receive until the whole response script has been written (messages back
+	// up inside the connection meanwhile); SendFirst: it then sends a message before its first receive
+	Lazy      bool `json:"lazy,omitempty"`
+	SendFirst bool `json:"send_first,omitempty"`
 }
 
 type C09Case struct {
@@ -46,6 +50,8 @@ func genC09(t *rapid.T) C09Case {
 		}
 		if call.Kind != kit.KindUnary {
 			call.Header = rapid.Bool().Draw(t, "header")
+			call.Lazy = rapid.IntRange(0, 3).Draw(t, "lazy") == 0
+			call.SendFirst = call.Lazy && call.Kind != kit.KindServer && rapid.Bool().Draw(t, "send_first")
 		}
 		c.Calls = append(c.Calls, call)
 	}
@@ -63,6 +69,8 @@ type c09CallObs struct {
 	end     *kit.ErrObs
 	hdrDone bool
 	openErr error
+	// sendFirst: what the send before the first receive returned (lazy callers that send first)
+	sendFirst string
 }
 
 // responseScript returns the envelopes the scripted server sends for call i.
@@ -124,7 +132,8 @@ func runC09(t *testing.T, c C09Case, pos int) *c09Run {
 		cc := goat.NewClientConn(l.A, "c0", kit.ServerName, dopts...)
 		bg := context.Background()
 
-		runStream := func(ctx context.Context, kind int, name string, o *c09CallObs, wantHeader bool) {
+		lazyRelease := make(chan struct{})
+		runStream := func(ctx context.Context, kind int, name string, o *c09CallObs, wantHeader bool, lazy, sendFirst bool) {
 			cs, err := cc.NewStream(ctx, kit.StreamDescFor(kind), kit.FullMethod(name))
 			if err != nil {
 				mu.Lock()
@@ -138,7 +147,23 @@ func runC09(t *testing.T, c C09Case, pos int) *c09Run {
 				o.hdrDone = true
 				mu.Unlock()
 			}
-			for {
+			if lazy {
+				<-lazyRelease
+				if sendFirst {
+					serr := kit.SendBytes(cs, []byte("late")) // may fail or not; what matters is what the receives report next
+					mu.Lock()
+					o.sendFirst = fmt.Sprintf("%v", serr)
+					mu.Unlock()
+				}
+			}
+			for n := 0; ; n++ {
+				if n > 8 {
+					// more receives have returned than the server ever sent messages: stop (the judge sees the surplus)
+					mu.Lock()
+					o.done = true
+					mu.Unlock()
+					return
+				}
 				b, err := kit.RecvBytes(cs)
 				if err != nil {
 					e := kit.Observe(err)
@@ -164,7 +189,7 @@ func runC09(t *testing.T, c C09Case, pos int) *c09Run {
 					mu.Unlock()
 					return
 				}
-				runStream(bg, call.Kind, name, o, call.Header)
+				runStream(bg, call.Kind, name, o, call.Header, call.Lazy, call.SendFirst)
 			}()
 		}
 		// the window call starts now and parks in the hook until the failure has been recorded
@@ -178,7 +203,7 @@ func runC09(t *testing.T, c C09Case, pos int) *c09Run {
 					mu.Unlock()
 					return
 				}
-				runStream(wctx, kit.KindBidi, "w", r.window, false)
+				runStream(wctx, kit.KindBidi, "w", r.window, false, false, false)
 			}()
 		}
 		kit.Settle()
@@ -236,6 +261,10 @@ func runC09(t *testing.T, c C09Case, pos int) *c09Run {
 			}
 			kit.Settle()
 		}
+		// the lazy callers start receiving now (until then the connection's read loop may have been parked on their
+		// streams, short of the failure point)
+		close(lazyRelease)
+		kit.Settle()
 		// the failure has been recorded: let the window call continue, and start calls "afterwards"
 		close(windowRelease)
 		go func() {
@@ -244,7 +273,7 @@ func runC09(t *testing.T, c C09Case, pos int) *c09Run {
 			r.after[0].reply, r.after[0].err, r.after[0].done = rep, err, true
 			mu.Unlock()
 		}()
-		go runStream(bg, kit.KindBidi, "after-s", r.after[1], true)
+		go runStream(bg, kit.KindBidi, "after-s", r.after[1], true, false, false)
 		kit.Settle()
 		r.tap = tp.Snapshot()
 		// end of observation: everything must have returned by now. Clean up.
@@ -291,10 +320,10 @@ func judgeC09(c C09Case, pos int, r *c09Run) string {
 			return fmt.Sprintf("%s: stream %d received %v which is not a prefix of what the server sent", tag, i, digests(o.recv))
 		}
 		if o.end == nil {
-			return fmt.Sprintf("%s: stream %d never observed an end", tag, i)
+			return fmt.Sprintf("%s: stream %d never observed an end (%d receives returned without an error, the server sent %d messages)", tag, i, len(o.recv), len(want))
 		}
 		if o.end.EOF && (!complete || len(o.recv) != len(want)) {
-			return fmt.Sprintf("%s: stream %d ended in io.EOF after %d of %d messages although the transport failed before its trailer", tag, i, len(o.recv), len(want))
+			return fmt.Sprintf("%s: stream %d ended in io.EOF after %d of %d messages although the transport failed before its trailer (complete response handed to Read before the failure: %v; lazy=%v, its send before the first receive returned %q)", tag, i, len(o.recv), len(want), complete, call.Lazy, o.sendFirst)
 		}
 	}
 	for k, o := range r.after {
@@ -353,9 +382,12 @@ func execC09(t *testing.T, c C09Case) (v Verdict) {
 		}
 	}
 	labels := []string{fmt.Sprintf("write_fails=%v", c.WriteFails), "window=" + c.Window, fmt.Sprintf("calls=%d", len(c.Calls)), "read_error=" + c.ErrKind, fmt.Sprintf("stats=%v", c.Stats)}
+	lazy := false
 	for _, call := range c.Calls {
 		labels = append(labels, "kind="+kit.KindNames[call.Kind])
+		lazy = lazy || call.Lazy
 	}
+	labels = append(labels, fmt.Sprintf("lazy_receiver=%v", lazy))
 	v.Info = kit.CaseInfo{Labels: labels, NonTrivial: L >= 2 || c.Window != "" || !c.WriteFails, Key: fmt.Sprintf("%+v", c),
 		Sample: map[string]any{"scenario": c, "trace_len": L, "positions": len(positions)}}
 	if v.Fail != "" && failRun != nil {
@@ -368,6 +400,26 @@ func execC09(t *testing.T, c C09Case) (v Verdict) {
 }
 
 func TestC09(t *testing.T) { checkProp(t, "C09", "main", genC09, execC09) }
+
+// TestC09GiveUp: the family of TestC09 cases in which a caller gives up on its stream (a send that fails) at the very
+// moment the connection's read loop gets round to that stream's envelopes: a lazy server stream Y with three or more
+// messages comes first in the response script (the read loop parks on it), a lazy stream X that sends before it
+// receives comes next, the write side fails. When both callers are released, X's teardown and the delivery of X's
+// message and trailer meet. Same executor and oracle as TestC09.
+func TestC09GiveUp(t *testing.T) {
+	checkProp(t, "C09", "give-up", func(t *rapid.T) C09Case {
+		c := C09Case{Ser: rapid.Bool().Draw(t, "ser"), WriteFails: true, ErrKind: rapid.SampledFrom(kit.FaultErrKinds).Draw(t, "err_kind"), Stats: rapid.IntRange(0, 2).Draw(t, "stats") == 0, Pos: -1}
+		c.Calls = append(c.Calls, C09Call{Kind: rapid.SampledFrom([]int{kit.KindServer, kit.KindBidi}).Draw(t, "ykind"), Bodies: rapid.IntRange(3, 4).Draw(t, "ybodies"), Lazy: true})
+		nx := rapid.IntRange(1, 3).Draw(t, "nx")
+		for i := 0; i < nx; i++ {
+			c.Calls = append(c.Calls, C09Call{Kind: rapid.SampledFrom([]int{kit.KindClient, kit.KindBidi}).Draw(t, "xkind"), Bodies: 1, Header: rapid.Bool().Draw(t, "xheader"), Lazy: true, SendFirst: true})
+		}
+		if rapid.Bool().Draw(t, "bystander") {
+			c.Calls = append(c.Calls, C09Call{Kind: kit.KindUnary})
+		}
+		return c // Order empty: the script answers the calls one after the other, Y first
+	}, execC09)
+}
 
 // ---- C09 storm: calls starting at the very moment the read loop fails (no hook) --------------
 
